@@ -114,6 +114,20 @@ pub(crate) fn reorder<T>(site: Site, mut items: Vec<T>, key: impl Fn(&T) -> Stri
         .collect()
 }
 
+/// The key a path is known by to the scheduler: its usual spelling. A path segment can itself
+/// contain `::` (a file called `a::b.pyxis`), which would give two different paths the same
+/// spelling and leave their relative order to the hash map; such a path gets the lengths of
+/// its segments appended.
+pub(crate) fn path_key(path: &crate::grammar::ItemPath) -> String {
+    let spelling = path.to_string();
+    if path.iter().any(|segment| segment.as_str().contains("::")) {
+        let lengths: Vec<String> = path.iter().map(|s| s.as_str().len().to_string()).collect();
+        format!("{spelling}#{}", lengths.join(","))
+    } else {
+        spelling
+    }
+}
+
 pub(crate) fn reorder_in_place<T>(site: Site, items: &mut Vec<T>, key: impl Fn(&T) -> String) {
     *items = reorder(site, std::mem::take(items), key);
 }
@@ -141,7 +155,7 @@ impl Ordered<crate::semantic::ResolvedSemanticState> {
         &self,
     ) -> Vec<(&crate::grammar::ItemPath, &crate::semantic::Module)> {
         reorder(Site::ModuleWrite, self.0.modules().iter().collect(), |(k, _)| {
-            k.to_string()
+            path_key(k)
         })
     }
 }
